@@ -9,6 +9,7 @@ import (
 	"runtime/debug"
 	"strconv"
 	"strings"
+	"time"
 
 	"github.com/go-gts/gts"
 	"github.com/go-gts/gts/internal/verifsim/core"
@@ -747,10 +748,14 @@ func mutateString(r *core.RNG, s string) string {
 
 // ---- scaling (T7) ----
 
-var scalingShapes = []string{"comment-lines", "definition-lines", "features", "qualifiers", "qualifier-lines", "origin", "records", "fasta-lines", "fasta-records", "dblink", "references", "keywords", "extra-fields", "unknown-lines"}
+var scalingShapes = []string{"comment-lines", "definition-lines", "features", "qualifiers", "qualifier-lines", "origin", "records", "fasta-lines", "fasta-records", "dblink", "references", "keywords", "extra-fields", "unknown-lines", "location-parts", "literal-lines", "origin-crlf", "fasta-long-line", "taxonomy-lines", "contig-parts"}
 
 // scaledStream builds a well-formed stream in which one part has n units.
 func scaledStream(shape string, n int) []byte {
+	if shape == "origin-crlf" {
+		// CRLF line ends send the ORIGIN block through the line-wise parser
+		return bytes.ReplaceAll(scaledStream("origin", n), []byte("\n"), []byte("\r\n"))
+	}
 	var b bytes.Buffer
 	origin := func(k int) string {
 		var o bytes.Buffer
@@ -768,6 +773,13 @@ func scaledStream(shape string, n int) []byte {
 		for i := 0; i < n; i++ {
 			b.WriteString("ACGTACGTACGTACGTACGTACGTACGTACGTACGTACGTACGTACGTACGTACGTACGTACGTACGTAC\n")
 		}
+		return b.Bytes()
+	case "fasta-long-line":
+		b.WriteString(">scaled\n")
+		for i := 0; i < n; i++ {
+			b.WriteString("ACGTACGTACGTACGTACGTACGTACGTACGTACGTACGTACGTACGTACGTACGTACGTACGTACGTAC")
+		}
+		b.WriteString("\n")
 		return b.Bytes()
 	case "fasta-records":
 		for i := 0; i < n; i++ {
@@ -824,6 +836,12 @@ func scaledStream(shape string, n int) []byte {
 		for i := 0; i < n; i++ {
 			b.WriteString("PROJECT     value\n")
 		}
+	case "taxonomy-lines":
+		b.WriteString("SOURCE      scaled organism\n  ORGANISM  scaled organism\n")
+		for i := 0; i < n; i++ {
+			fmt.Fprintf(&b, "            Taxon%d; Other%d;\n", i, i)
+		}
+		b.WriteString("            Last.\n")
 	case "unknown-lines":
 		for i := 0; i < n; i++ {
 			b.WriteString("   this line is not a field and is skipped\n")
@@ -840,6 +858,23 @@ func scaledStream(shape string, n int) []byte {
 		for i := 0; i < n; i++ {
 			fmt.Fprintf(&b, "                     /note=\"value %d\"\n", i)
 		}
+	case "location-parts":
+		b.WriteString("     gene            join(1..2")
+		for i := 1; i < n; i++ {
+			if i%3 == 0 {
+				b.WriteString(",\n                     ")
+			} else {
+				b.WriteString(",")
+			}
+			fmt.Fprintf(&b, "%d..%d", i*3+1, i*3+2)
+		}
+		b.WriteString(")\n")
+	case "literal-lines":
+		b.WriteString("     gene            1..10\n                     /transl_except=(pos:1..3,")
+		for i := 0; i < n; i++ {
+			b.WriteString("\n                     aa:Met more literal text")
+		}
+		b.WriteString(")\n")
 	case "qualifier-lines":
 		b.WriteString("     gene            1..10\n                     /note=\"first")
 		for i := 0; i < n; i++ {
@@ -848,6 +883,13 @@ func scaledStream(shape string, n int) []byte {
 		b.WriteString("\"\n")
 	default:
 		b.WriteString("     gene            1..10\n")
+	}
+	if shape == "contig-parts" {
+		b.WriteString("CONTIG      join(AB000001.1:1..10")
+		for i := 1; i < n; i++ {
+			fmt.Fprintf(&b, ",\n            AB%06d.1:1..10", i)
+		}
+		b.WriteString(")\n")
 	}
 	b.WriteString(origin(length))
 	b.WriteString("//\n")
@@ -892,7 +934,52 @@ func (x *c07Run) runScaling(sc *c07Scenario) {
 	// input x4: linear work gives about x4 (less with fixed overhead); x16 is quadratic
 	if ratio > 9 && a2 > 1<<20 {
 		x.violate(sc, "superlinear-allocation", sc.Shape, fmt.Sprintf("%s: %d units (%d bytes) allocate %d bytes, %d units (%d bytes) allocate %d bytes: x%.1f for x%.1f input", sc.Shape, sc.N, len(small), a1, 4*sc.N, len(large), a2, ratio, float64(len(large))/float64(len(small))))
+		return
 	}
+	x.runTimeScaling(sc)
+}
+
+// minScanTime is the shortest of reps scans of data: the minimum discards
+// what other processes on the machine add to a measurement.
+func minScanTime(data []byte, reps int) time.Duration {
+	best := time.Duration(1 << 62)
+	for i := 0; i < reps; i++ {
+		core.Tick()
+		t0 := time.Now()
+		scanAll(data, simpipe.Spec{CutAt: -1}, 0)
+		if d := time.Since(t0); d < best {
+			best = d
+		}
+	}
+	return best
+}
+
+// runTimeScaling applies T8, the part of "time proportional to the input"
+// that allocation cannot see: work that re-reads or re-copies inside one
+// buffer. The stream is scanned at 4N and at 16N units; quadratic work makes
+// the larger scan about 16 times slower, linear work about 4 times. This is
+// the one oracle that reads a real clock. It is made safe against noise by
+// taking the minimum of several scans, by demanding both a ratio far from the
+// linear one and an absolute time far above what a linear scan of that size
+// takes, and by measuring again before reporting; times never enter the event
+// log, the state keys or the digests.
+func (x *c07Run) runTimeScaling(sc *c07Scenario) {
+	small, large := scaledStream(sc.Shape, 4*sc.N), scaledStream(sc.Shape, 16*sc.N)
+	processBoundary()
+	x.res.Probes["time_scaling_cases"]++
+	x.res.Evaluations += 2
+	verdict := func(reps int) (bool, time.Duration, time.Duration) {
+		t1, t2 := minScanTime(small, reps), minScanTime(large, reps)
+		return t2 > 10*t1 && t2 > 60*time.Millisecond, t1, t2
+	}
+	bad, t1, t2 := verdict(3)
+	if !bad {
+		return
+	}
+	if bad, t1, t2 = verdict(5); !bad {
+		return
+	}
+	x.violate(sc, "superlinear-time", sc.Shape, fmt.Sprintf("%s: scanning %d units (%d bytes) takes %v, %d units (%d bytes) takes %v (minimum of 5 scans each, measured twice): x%.1f for x%.1f input", sc.Shape, 4*sc.N, len(small), t1, 16*sc.N, len(large), t2, float64(t2)/float64(t1+1), float64(len(large))/float64(len(small))))
 }
 
 // ---- engine ----
@@ -903,7 +990,7 @@ func (C07) Meta() core.Meta {
 	return core.Meta{
 		Property:   "C07",
 		Level:      "exploration",
-		NonVacuous: []string{"chunk_invariance_cases", "length_consistency_cases", "rescan_in_same_process_cases", "scaling_cases"},
+		NonVacuous: []string{"chunk_invariance_cases", "length_consistency_cases", "rescan_in_same_process_cases", "scaling_cases", "time_scaling_cases"},
 		Rule: "Each simulated run draws a stream from its seed (corpus GenBank/FASTA files, generated GenBank records, generated FASTA records, 1-4 records, LF or CRLF) and " +
 			"feeds it to the real auto-detecting scanner through a simulated pipe. Mode A sweeps the reader fault over the stream: EOF or EIO at offset c (every offset of " +
 			"small streams, otherwise boundaries + header + seeded offsets), optionally delivered together with the last data, under a seeded chunk schedule. Mode B applies " +
@@ -913,7 +1000,7 @@ func (C07) Meta() core.Meta {
 			"part of a well-formed stream by 4 and compares allocated bytes (T7). Oracles: T1 no " +
 			"panic; T2 watchdog + no Read after an error; T3 (unedited GenBank streams) every record returned equals the intact stream's record and Err()==nil implies all complete " +
 			"records were returned and the cut sits on a record boundary, and a delivered reader error never ends in Err()==nil; T4 (mode C) accepted implies declared == actual == " +
-			"returned length; T5 outcome independent of the chunk schedule; T6 the same stream scanned twice in one process gives the same outcome; T7 input x4 allocates at most x9. A case is one faulted scan or string call; it is non-trivial when its state key is new.",
+			"returned length; T5 outcome independent of the chunk schedule; T6 the same stream scanned twice in one process gives the same outcome; T7 input x4 allocates at most x9; T8 input x4 takes at most x10 the time (minimum of repeated scans, measured twice, and only when the larger scan takes more than 60 ms). A case is one faulted scan or string call; it is non-trivial when its state key is new.",
 		StateRule:       "distinct (format, fault kind, last edit kind, top-level field in which the fault landed, chunk class, outcome {panic, error, clean, clean-nothing}) and (string function, outcome)",
 		Assumptions:     []string{"(0,nil) reads are not injected: pars (a dependency) spins on them", "time proportional to the input is decided only as 'no hang within the watchdog'", "FASTA has no end marker: T3 is applied to GenBank streams only"},
 		Real:            []string{"seqio.NewAutoScanner, GenBankParser and all sub-parsers, FastaParser, INSDCTableParser, QualifierParser", "gts.AsLocation/AsLocator/AsModifier/Selector/AsMolecule/AsTopology, seqio.AsDate", "pars"},
